@@ -183,6 +183,11 @@ def _int_cells(draw, field, fmt, n):
     cells += [str(v) for v in picked]
     cells += draw(st.lists(st.sampled_from(["abc", "1.5", "1,5", "0x10", "12a", "1e3", "--1", "1-", "-", "٣", "1 2",
                                            "+5", "007", "1_0", " 7", "-0", "NaN"]), min_size=2, max_size=3))
+    # digits in groups of three: a spelling of Decimal cells, not of integers - whichever separator is used
+    big = [v for v in picked if abs(v) >= 1000][:2] + [1000, 1234567]
+    for v in big[:3]:
+        separator = draw(st.sampled_from([fmt["thousands"] or ",", fmt["thousands"] or ".", ",", ".", "'"]))
+        cells.append(_group(str(v), separator))
     return cells
 
 
@@ -250,6 +255,8 @@ def _dec_cells(draw, field, fmt, n):
         if ts and draw(st.booleans()):
             whole = _group(whole, ts)
         cells.append(whole + (ds + frac if frac else ""))
+    if draw(st.integers(0, 3)) == 0:
+        cells.append(draw(st.sampled_from(["-0", "-0" + ds + "0", "-0" + ds + "00", "0" + ds + "000"])))  # zero is zero
     ok = [c for c in cells if c]
     mutations = []
     for c in ok[:3]:
@@ -449,7 +456,9 @@ def _dt_cells(draw, field, fmt, n):
         elif mutation == "truncate" and text:
             text = text[:-1]
         elif mutation == "trailing":
-            text = text + draw(st.sampled_from(["0", " ", "x", ".", " 00:00:00"]))
+            # one more character, or what time stamps carry behind the seconds (fractions, zones, AM / PM)
+            text = text + draw(st.sampled_from(["0", " ", "x", ".", " 00:00:00", ".250", ".5", ",5", ".000", "Z", "+01:00",
+                                                " AM", "PM", ".123456"]))
         elif mutation == "unpadded":
             text = text.replace("0", "", 1)
         elif mutation == "excel":
